@@ -6,7 +6,7 @@ import vlib
 def build(ctx):
     thorough = ctx.tier == "thorough"
     ctx.units = ["src/cpp/automations.cpp via LLVM IR", "src/rtosc.c (rtosc_message, accessors) directly"]
-    ctx.functions = ["AutomationMgr::clearSlot", "clearSlotSub", "handleMidi", "setparameternumber", "getnrpn", "setSlot", "setSlotSub", "updateMapping",
+    ctx.functions = ["AutomationMgr::createBinding", "Ports::apropos", "AutomationMgr::clearSlot", "clearSlotSub", "handleMidi", "setparameternumber", "getnrpn", "setSlot", "setSlotSub", "updateMapping",
                      "setSlotSubGain", "setSlotSubOffset", "AutomationMgr::AutomationMgr", "rtosc_message", "rtosc_argument", "rtosc_type"]
     inc = ['-DREPO_AUTOMATIONS="%s/src/cpp/automations.cpp"' % vlib.REPO]
     rt = [os.path.join(vlib.STUBS, "cxxrt.c"), os.path.join(vlib.STUBS, "nd_cbmc.c"), os.path.join(vlib.STUBS, "libc_extra.c"), os.path.join(vlib.STUBS, "libm_model.c"), os.path.join(vlib.STUBS, "rtosc_shim.c"), os.path.join(vlib.STUBS, "fmt_stub.c"), ctx.unit("rtosc")]
@@ -23,6 +23,24 @@ def build(ctx):
                 {"pre-state": "%d slots, learning/midi_cc symbolic under the queue invariant" % ns, "operation": "clearSlot(%d)" % c}, unwind=12)
         add("learn-ns%d-midi" % ns, hl, ["-DNS=%d" % ns, "-DOP=2"],
             {"pre-state": "%d slots, learning/midi_cc symbolic under the queue invariant" % ns, "operation": "handleMidi(symbolic plain controller, symbolic value)"}, unwind=12)
+    hb = os.path.join(vlib.HARN, "C19", "h_bind.cpp")
+    incb = inc + ['-DREPO_PORTS="%s/src/cpp/ports.cpp"' % vlib.REPO]
+    rtb = rt + [os.path.join(vlib.STUBS, "atof_model.c"), os.path.join(vlib.STUBS, "atoi_model.c"), ctx.unit("dispatch"), ctx.unit("util")]
+    for ns in ((2, 3) if not thorough else (2, 3, 4)):
+        for c in range(ns):
+            for path, ptype, bindable in (("/x", "'f'", 1), ("/n", "'i'", 0)):   # (binding the toggle port \"/t\" does not finish in 300 s)
+                for learn in (1, 0):
+                    if not thorough and (c not in (0, ns - 1) or (path == "/n" and learn == 0)):
+                        continue
+                    defs = ["-DNS=%d" % ns, "-DCSLOT=%d" % c, '-DPATH="%s"' % path, "-DPTYPE=%s" % ptype, "-DBINDABLE=%d" % bindable, "-DLEARN=%d" % learn]
+                    name = "bind-ns%d-c%d-%s-l%d" % (ns, c, path[1:], learn)
+                    d2 = defs + ["-fno-access-control"]
+                    q = ctx.add(vlib.Query(name, ["@IR@"] + rtb, defines=defs, unwind=140, objbits=12, native_sources=[hb], native_cxx=True, native_flags=incb + d2,
+                                           native_lib_exclude=["automations.cpp", "ports.cpp"], witness_optional="learn requested",
+                                           unwindset=["strlen.0:60", "strcmp.0:20", "strstr.0:20", "strncat.0:12", "atof.0:4", "atof.1:8", "atof.2:8", "strchr.0:12"] + ["rtosc_match_path.%d:8" % k_ for k_ in range(3)] + ["rtosc_match_options.%d:3" % k_ for k_ in range(4)],
+                                           descr={"pre-state": "%d slots: learning/midi_cc/used symbolic under the queue invariant" % ns, "operation": "createBinding(%d, \"%s\", learn=%d)" % (c, path, learn),
+                                                  "port table": "directly constructed: x::f [0,1], t::T:F, n::i (no bounds)"}))
+                    q.prepare = (lambda name_, d2_: (lambda q_: q_.sources.__setitem__(0, ctx.ir_translate(name_, hb, cxx=True, defines=incb + d2_))))(name, d2)
     ranges = [("f", "0.0f", "1.0f"), ("f", "-5.0f", "20.5f"), ("i", "0.0f", "127.0f"), ("i", "-5.0f", "5.0f")]
     if thorough:
         ranges += [("i", "-64.0f", "63.0f"), ("i", "1.0f", "2.0f"), ("i", "0.0f", "16383.0f"), ("f", "-1.0f", "1.0f")]
@@ -38,5 +56,5 @@ def build(ctx):
     ctx.assumptions = ["queue invariant: waiting slots hold exactly 1..k, k == learn_queue_len, are unbound; bound slots hold -1",
                        "roundf exact model (stubs/libm_model.c); linear scale only", "controller ids restricted to 0..3 on channel 0 (ids are only compared for equality)"]
     ctx.stubs = ["C++ runtime: stubs/cxxrt.c", "roundf: stubs/libm_model.c"]
-    ctx.outside = ["createBinding / setSlotSubPath (need a port table: Ports::apropos, metadata atof)", "log-scale parameters (expf/logf)",
+    ctx.outside = ["setSlotSubPath; createBinding for log-scale parameters", "log-scale parameters (expf/logf)",
                    "NRPN controller sequences", "histories are covered through the inductive step, not enumerated"]
